@@ -1,4 +1,5 @@
 import CirqVerif.Proofs.Eigen
+import CirqVerif.Proofs.Controlled
 /-!
 # C08 — property theorems (gate algebra)
 -/
@@ -26,3 +27,26 @@ theorem C08_eigen_inverse {A : Type} [Lean.Grind.CommRing A] (d n : Nat) (θ : N
   rw [this, eigenU_zero n θ s ph hph0 P]
 
 end CirqVerif.Eigen
+
+namespace CirqVerif.C08
+open CirqVerif
+
+/-- `ProductOfSums.expand()` denotes exactly the product set: a control tuple is in the expansion iff
+every digit is one of the values allowed for its control. -/
+theorem C08_cv_expand (p : PoS) (c : List Nat) : c ∈ expandPoS p ↔ satPoS p c = true := mem_product p c
+
+/-- **Controlling by any control values gives the block matrix that applies the target exactly on the
+selected control states** — as an action on states: on a basis index whose control digits are selected the
+controlled operation acts as the target operation, on every other basis index as the identity.  Any
+predicate on control tuples (product of sums, sum of products), any control / target axes, qudit shapes. -/
+theorem C08_controlled_apply {R : Type} [Lean.Grind.CommRing R] (sat : List Nat → Bool) (U : Mat R)
+    (shape caxes taxes : List Nat) (ψ : State R) (idx : Idx) (hv : ValidIdx shape idx)
+    (hc : ∀ a ∈ caxes, a < idx.length) (ht : ∀ a ∈ taxes, a < idx.length) :
+    applyOp (controlledMat sat caxes.length U)
+        ((caxes ++ taxes).map (fun a => shape.getD a 1)) (caxes ++ taxes) ψ idx
+      = if sat (getAxes idx caxes) then
+          applyOp U (taxes.map (fun a => shape.getD a 1)) taxes ψ idx
+        else ψ idx :=
+  controlled_apply sat U shape caxes taxes ψ idx hv hc ht
+
+end CirqVerif.C08
